@@ -142,7 +142,7 @@ func CreateEmptyTrak(trackID, timeScale uint32, mediaType, language string) *Tra
 		panic(fmt.Sprintf("mediaType %s not supported", mediaType))
 	}
 	mdia.AddChild(hdlr)
-	if len(language) == 3 {
+	if isThreeLetterLanguage(language) {
 		mdhd.SetLanguage(language)
 	} else {
 		mdhd.SetLanguage("und")
@@ -175,6 +175,21 @@ func CreateEmptyTrak(trackID, timeScale uint32, mediaType, language string) *Tra
 	stbl.AddChild(&StszBox{})
 	stbl.AddChild(&StcoBox{})
 	return trak
+}
+
+// isThreeLetterLanguage tells whether language can be stored in the packed
+// ISO-639-2/T field of mdhd: exactly three lower-case letters a-z.
+// Any other tag (e.g. "en", "en-US", "x-y") goes into an elng box.
+func isThreeLetterLanguage(language string) bool {
+	if len(language) != 3 {
+		return false
+	}
+	for i := 0; i < 3; i++ {
+		if language[i] < 'a' || language[i] > 'z' {
+			return false
+		}
+	}
+	return true
 }
 
 // SetAVCDescriptor - Set AVC SampleDescriptor based on SPS and PPS
